@@ -217,6 +217,10 @@ func addRecordToAggregations(grpReq *structs.GroupByRequest, timeHistogram *stru
 				colsToReadIndices[cKeyidx] = struct{}{}
 			} else {
 				nodeRes.StoreGlobalSearchError(fmt.Sprintf("addRecordToAggregations: failed to find keyIdx in mcr for groupby cname: %v", col), log.ErrorLevel, nil)
+				// The column does not exist in this segment. Keep its position in the group key
+				// (the value is null for every record); a key with fewer values than group-by
+				// columns makes CreateStatsResults index out of range.
+				groupbyColKeyIndices = append(groupbyColKeyIndices, -1)
 			}
 		}
 	}
@@ -317,6 +321,11 @@ func addRecordToAggregations(grpReq *structs.GroupByRequest, timeHistogram *stru
 					len(groupbyColKeyIndices)*sutils.MAX_RECORD_SIZE)
 			}
 			for _, colKeyIndex := range groupbyColKeyIndices {
+				if colKeyIndex < 0 {
+					copy(aggsKeyWorkingBuf[aggsKeyBufIdx:], sutils.VALTYPE_ENC_BACKFILL)
+					aggsKeyBufIdx += 1
+					continue
+				}
 				rawVal, err := multiColReader.ReadRawRecordFromColumnFile(colKeyIndex, blockNum, recNum, qid, false)
 				if err != nil {
 					nodeRes.StoreGlobalSearchError(fmt.Sprintf("addRecordToAggregations: Failed to get key for column %v", colKeyIndex), log.ErrorLevel, err)
